@@ -199,7 +199,7 @@ func checkC07(rc *Run) error {
 		}(w)
 	}
 	for i, c := range cases {
-		if i%nsh == shard {
+		if inShard(i, nsh, shard) {
 			jobs <- c
 		}
 	}
